@@ -21,6 +21,8 @@ SRC = {  # id -> (worktree, n)
     # fourth round (after the buffered-type layer of C11 and the two C12 layers were built)
     "C12-1": ("/tmp/wt4-C12", 1), "C12-2": ("/tmp/wt4-C12", 2), "C12-3": ("/tmp/wt4-C12", 3),
     "C12-4": ("/tmp/wt4-C12", 4), "C12-5": ("/tmp/wt4-C12", 5),
+    # fifth round (after the Framed state-machine layer of C13 was built)
+    "C13-3": ("/tmp/wt5-C13", 1), "C13-4": ("/tmp/wt5-C13", 2), "C13-5": ("/tmp/wt5-C13", 3),
     "C11-3": ("/tmp/wt4-C11", 1), "C11-4": ("/tmp/wt4-C11", 2), "C11-5": ("/tmp/wt4-C11", 3),
 }
 RESULTS = json.load(open(os.path.join(os.path.dirname(__file__), "seed_results.json")))
